@@ -7,7 +7,7 @@ root=sys.argv[1]; prefix=sys.argv[2]; props=sys.argv[3:] or sorted(os.path.basen
 env=dict(os.environ, GOFLAGS='-mod=mod', GOPROXY='off', GOSUMDB='off', GOTOOLCHAIN='local'); env.pop('GOWORK',None)
 def sh(c): return subprocess.run(c,shell=True,capture_output=True,text=True,env=env)
 head=sh('git -C /repo rev-parse HEAD').stdout.strip()
-CAMPAIGN={'b4-':'fourth','b5-':'fifth','b6-':'sixth','b7-':'seventh'}.get(prefix,prefix)
+CAMPAIGN={'b4-':'fourth','b5-':'fifth','b6-':'sixth','b7-':'seventh','b8-':'eighth'}.get(prefix,prefix)
 WT='/tmp/import_wt'
 if not os.path.isdir(WT): sh(f'git -C /repo worktree add --detach {WT} {head}')
 for p in props:
